@@ -25,7 +25,8 @@ LEVEL = "exploration"
 RULE = (
     "Hypothesis cases of two kinds - overview: per-language file lists for a current and an optional previous report "
     "(languages drawn so that some are shared, some added, some removed; figures 0..1e6); findings: 0..25 functions "
-    "> 30 plus shorter ones, full/not full, repository yes/no. Every case is rendered in text and Markdown. "
+    "> 30 plus shorter ones (overloads: several functions of one name in a file), full/not full, repository yes/no. Every case is rendered in text and Markdown "
+    "on a 400-column console; reports with 4..7-digit figures are also rendered as text at 80 / 100 / 120 columns, where every figure and annotation must still appear in full. "
     "Non-trivial = (overview) a previous report sharing >= 1 language with a changed figure, or (findings) more than "
     "10 findings; distinct by digest of the case"
 )
